@@ -350,6 +350,44 @@ pub fn ts_tables() -> Tables {
     t
 }
 
+/// A key that shares its version-clock shard with key `a` under the fixed hasher seeds.
+pub fn colliding_key() -> Vec<u8> {
+    static K: std::sync::OnceLock<Vec<u8>> = std::sync::OnceLock::new();
+    K.get_or_init(|| {
+        let mut cfg = Cfg::memory();
+        cfg.same_shard = true;
+        let sut = crate::sut::Sut::create(cfg, "collide").expect("store for the key search");
+        let want = sut.store().verif_clock_shard_of(b"a");
+        let k = (0..100_000u32).map(|i| format!("b{i}").into_bytes()).find(|k| sut.store().verif_clock_shard_of(k) == want).expect("a colliding key");
+        drop(sut);
+        crate::session::Session::uninstall();
+        k
+    })
+    .clone()
+}
+
+pub fn oneshard_ops(persistent: bool) -> Vec<Op> {
+    let a = 0u8;
+    let b = 1u8;
+    let mut v = vec![
+        ins(a, V_X),
+        ins_ts(a, V_Y, u64::MAX),
+        ins_ts(a, V_X, FUT + 5),
+        Op::Delete { k: a, ts: 0 },
+        ins(b, V_X),
+        ins_ts(b, V_X, FUT + 2),
+        Op::Delete { k: b, ts: 0 },
+        Op::Incr { k: b, delta: 1, ts: 0, ttl: 0 },
+        Op::Cas { k: b, expect: V_X, new: V_Y, ts: 0, ttl: 0 },
+        Op::UpdateTtl { k: b, secs: 1000 },
+    ];
+    if persistent {
+        v.push(Op::Flush);
+        v.push(Op::Reopen);
+    }
+    v
+}
+
 pub fn ts_ops(persistent: bool, ttl: bool) -> Vec<Op> {
     let a = 0u8;
     let b = 1u8;
@@ -525,6 +563,28 @@ pub fn all_suites(thorough: bool) -> Vec<Suite> {
     let mut tm = Cfg::memory();
     tm.ttl = true;
     v.push(suite("ts-mem", tm, ts_tables(), ts_ops(false, true), d(5, 6)));
+    // both keys on ONE version-clock shard (the default suites force distinct shards): what one key
+    // does to the shared clock - a pinned maximum, a future-dated write, a restart - must not make
+    // the other key's automatic writes fail
+    {
+        let mut t = ts_tables();
+        t.keys[1] = colliding_key();
+        t.bounds[2] = t.keys[1].clone();
+        let mut om = Cfg::memory();
+        om.ttl = true;
+        om.same_shard = true;
+        v.push(suite("ts-oneshard-mem", om, t.clone(), oneshard_ops(false), d(5, 6)));
+        let mut od = disk(3, true, true);
+        od.same_shard = true;
+        let mut s = suite("ts-oneshard-v3", od, t.clone(), oneshard_ops(true), d(4, 5));
+        s.max_heavy = 3;
+        v.push(s);
+        let mut o2 = disk(2, true, true);
+        o2.same_shard = true;
+        let mut s = suite("ts-oneshard-v2", o2, t, oneshard_ops(true), d(4, 5));
+        s.max_heavy = 3;
+        v.push(s);
+    }
     let mut tl = Cfg::memory();
     tl.max_memory = Some(overhead + 1 + 8 + 4); // one small record only: creating b fails
     v.push(suite("ts-mem-limit", tl, ts_tables(), ts_ops(false, false), d(5, 6)));
